@@ -1,7 +1,7 @@
 (* C14 — Lower-resolution label levels match the documented down-sampling.
    Only statements, each closed by [exact] of a lemma proved in Proofs/, and Print Assumptions. *)
 From DV Require Import Base.Prelude Base.Int Base.BitPack Model.Block Model.Downres
-     Proofs.BitPack Proofs.Block Proofs.Downres Gen.Consts.
+     Model.BlockOps Proofs.BitPack Proofs.Block Proofs.BlockOps Proofs.Downres Proofs.DownresBlock Gen.Consts.
 From Coq Require Import Permutation.
 Local Open Scope N_scope.
 
@@ -83,9 +83,23 @@ Theorem C14_downres_blank_refuted :
 Proof. exact downres_blank_refuted. Qed.
 Print Assumptions C14_downres_blank_refuted.
 
-(* Stated, not proved (checked on every generated case): Block.Downres (repaired) on a block and
-   eight optional octant blocks yields, voxel for voxel, the vote of the eight octant voxels in the
-   eighth of every given octant and the block's own voxel elsewhere (Model.DownresRun.dr_ref). *)
+(* Block.Downres (repaired setBlank) on a block and eight optional octant blocks of the block's
+   size, voxel for voxel: the result decodes to an array whose voxel (x,y,z) is the vote of the
+   eight voxels of octant oct_of(x,y,z) above it when that octant is given, and the starting
+   array's voxel otherwise (the block's own voxels; zeros when all eight octants are given) — for
+   every table the re-encoding may pick.  Block domain and array domain agree. *)
+Theorem C14_block_downres : forall tbl b octs b' old,
+  tbl_ok tbl -> 0 < b_gx b -> 0 < b_gy b -> 0 < b_gz b -> length octs = 8%nat ->
+  Forall (same_size b) octs ->
+  decode b = Ok old ->
+  downres true tbl b octs = Ok b' ->
+  let nx := 8 * b_gx b in let ny := 8 * b_gy b in let nz := 8 * b_gz b in
+  exists a, decode b' = Ok a /\ length a = N.to_nat (nx * ny * nz) /\
+    forall x y z, x < nx -> y < ny -> z < nz ->
+      exists v, nth_N a ((z * ny + y) * nx + x) = Some v /\
+                dr_voxel (start_of old octs (nx * ny * nz)) (arrays_of octs 0) nx ny nz x y z v.
+Proof. exact downres_fixed_spec. Qed.
+Print Assumptions C14_block_downres.
 
 (* Non-vacuity: a concrete pyramid (constant levels) satisfies Pyr. *)
 Example C14_pyr_inhabited : Pyr (fun _ _ _ _ => 3) 5.
